@@ -6,18 +6,18 @@ EXPLANATION = ('The random start index (rdtsc) is a fresh solver variable per ca
                'no duplication and legality of the empty report.')
 ASSUMPTIONS = ['k in {1,2}, segments in {1,2,3}; products above 2^16 (finding F11, needs 65536 segments) are outside the bound',
                'unbounded kirsch_kfifo_queue is checked with hazard_pointer only']
-TIMEOUT = {'quick': 300, 'thorough': 2400}
+TIMEOUT = {'quick': 900, 'thorough': 2400}
 SEQ, MT = 'Q/queue_seq.cpp', 'Q/queue_mt.cpp'
 
 
 def scenarios(tier):
     s = [Scenario('bounded-seq-k1-seg2-n4', SEQ, ['QSEL=3', 'QK=1', 'QCAP=2', 'NOPS=4'], unwind=6, cover=[1, 2]),
-         Scenario('bounded-seq-k2-seg2-rot1-n4', SEQ, ['QSEL=3', 'QK=2', 'QCAP=2', 'NOPS=4', 'ROT=1'], unwind=6, cover=[1, 2]),
          Scenario('bounded-mt-k1-K2', MT, ['QSEL=3', 'QK=1', 'QCAP=2'], threads=2, K=2, unwind=4, cover=[1, 2]),
-         Scenario('bounded-mt-k2-wrap-rot1-K2', MT, ['QSEL=3', 'QK=2', 'QCAP=2', 'ROT=1', 'PREFILL=1', 'NPUSH1=1', 'NPOP2=2'], threads=2, K=2, unwind=4, cover=[1, 2]),
-         Scenario('bounded-mt-k2-wrap-rot3-K2', MT, ['QSEL=3', 'QK=2', 'QCAP=2', 'ROT=3', 'PREFILL=1', 'NPUSH1=1', 'NPOP2=2'], threads=2, K=2, unwind=4, cover=[1, 2])]
+         Scenario('bounded-mt-k2-wrap-rot1-K2', MT, ['QSEL=3', 'QK=2', 'QCAP=2', 'ROT=1', 'PREFILL=1', 'NPUSH1=1', 'NPOP2=2'], threads=2, K=2, unwind=4, cover=[1, 2])]
     if tier == 'thorough':
-        s += [Scenario('bounded-seq-k2-seg3-rot2-n5', SEQ, ['QSEL=3', 'QK=2', 'QCAP=3', 'NOPS=5', 'ROT=2'], unwind=8, cover=[1, 2]),
+        s += [Scenario('bounded-seq-k2-seg2-rot1-n4', SEQ, ['QSEL=3', 'QK=2', 'QCAP=2', 'NOPS=4', 'ROT=1'], unwind=6, cover=[1, 2]),
+              Scenario('bounded-mt-k2-wrap-rot3-K2', MT, ['QSEL=3', 'QK=2', 'QCAP=2', 'ROT=3', 'PREFILL=1', 'NPUSH1=1', 'NPOP2=2'], threads=2, K=2, unwind=4, cover=[1, 2]),
+              Scenario('bounded-seq-k2-seg3-rot2-n5', SEQ, ['QSEL=3', 'QK=2', 'QCAP=3', 'NOPS=5', 'ROT=2'], unwind=8, cover=[1, 2]),
               Scenario('bounded-mt-k2-K3', MT, ['QSEL=3', 'QK=2', 'QCAP=2', 'ROT=2', 'PREFILL=2', 'NPUSH1=2', 'NPOP2=2'], threads=2, K=3, unwind=4, cover=[1, 2]),
               Scenario('unbounded-seq-k2-hp-n3', SEQ, ['QSEL=7', 'QK=2', 'NOPS=3', 'RECL=1', 'HPK=3'], unwind=6, cover=[1, 2]),
               Scenario('unbounded-mt-k1-hp-K2', MT, ['QSEL=7', 'QK=1', 'RECL=1', 'HPK=3', 'NPUSH1=1', 'NPOP2=1'], threads=2, K=2, unwind=4, cover=[1])]
